@@ -419,6 +419,14 @@ def _seeds(stg, c, tmp, R):
                 return np.array(fb.estimate_channelized_stds(factor=50, seed=sd))
         for kind in ('antenna', 'array', 'stream', 'frame', 'chanstd'):
             R.check(np.array_equal(mk(kind), mk(kind)), 'same-seed-different-draws:' + kind + (':seed-zero' if int(sd) == 0 else ''), seed=nm)
+    # ... and seeds that differ are different seeds, however far apart: s and s + 2^32 (numpy recommends 64-128 bit seeds)
+    base_ = int(c['seed']) + 12345
+    for kind in ('antenna', 'array', 'stream', 'frame'):
+        draws_ = []
+        for sd in (base_, base_ + 2 ** 32, base_ + 2 ** 40):
+            draws_.append(mk(kind))
+        R.check(not np.array_equal(draws_[0], draws_[1]) and not np.array_equal(draws_[0], draws_[2]),
+                'seeds-differing-by-a-multiple-of-2^32-draw-the-same-noise:' + kind)
     R.mark_nontrivial(True)
 
 
